@@ -280,7 +280,8 @@ func (r *DeviceAuthorizationState) GetAMR() []string {
 
 func (r *DeviceAuthorizationState) GetAudience() []string {
 	if !slices.Contains(r.Audience, r.ClientID) {
-		r.Audience = append(r.Audience, r.ClientID)
+		// the state is owned by the storage: do not modify it from a getter
+		return append(slices.Clone(r.Audience), r.ClientID)
 	}
 	return r.Audience
 }
